@@ -55,7 +55,26 @@ fn is_skipped_macro(m: &Macro) -> bool {
     n == "debug_assert" || n == "debug_assert_eq" || n == "debug_assert_ne" || n == "assert" || n == "assert_eq" || n == "assert_ne"
 }
 
+fn is_panic_macro(m: &Macro) -> bool {
+    let n = m.path.segments.last().map(|s| s.ident.to_string()).unwrap_or_default();
+    n == "panic" || n == "unreachable" || n == "unimplemented" || n == "todo"
+}
+
 impl<'a> Tr<'a> {
+    /// the end of a path that panics: the current state with a default result
+    fn panic_finish<T: syn::spanned::Spanned>(&mut self, at: &T, env: &Env) -> R<String> {
+        if self.gen.is_some() || !self.loops.is_empty() {
+            return Err(unsupported(at, "`panic!` inside a loop or generator"));
+        }
+        let rt = self.ret_ty.clone();
+        if self.fuel {
+            // a fuelled function: no value
+            return Ok("None".to_string());
+        }
+        let d = self.t.default_of(&rt).ok_or_else(|| unsupported(at, &format!("`panic!` in a function returning {} (no default value for the panicking path)", rt.show())))?;
+        self.finish(Val { s: d, ty: rt }, env)
+    }
+
     pub fn expr_k(&mut self, e: &Expr, env: &Env, hint: Option<&Ty>, k: K) -> R<String> {
         match e {
             Expr::Paren(p) => self.expr_k(&p.expr, env, hint, k),
@@ -83,12 +102,44 @@ impl<'a> Tr<'a> {
                 self.for_unrolled(&f.pat, &elems, 0, &f.body, env, k)
             }
             Expr::Match(m) => self.match_k(m, env, hint, k),
+            Expr::Return(r) if self.gen.is_some() => match &r.expr {
+                Some(x) => self.expr_k(x, env, None, &|tr, v| tr.gen_finish(v, e)),
+                None => Err(unsupported(e, "`return;` inside a generator closure")),
+            },
+            Expr::Try(t) if self.gen.is_some() => self.expr_k(&t.expr, env, None, &|tr, v| {
+                let inner = match &v.ty {
+                    Ty::Option(t) => (**t).clone(),
+                    _ => return Err(unsupported(e, &format!("`?` on a value of type {}", v.ty.show()))),
+                };
+                let x = tr.fresh("q");
+                let rest = k(tr, Val { s: x.clone(), ty: inner })?;
+                // the closure returns None: the generator is finished
+                Ok(format!("match {} with\n| Some {} =>\n{}\n| None => Some []\nend", v.s, x, rest))
+            }),
             Expr::Return(r) => {
                 let rt = self.ret_ty.clone();
                 match &r.expr {
                     Some(x) => self.expr_k(x, env, Some(&rt), &|tr, v| tr.finish(v, env)),
                     None => self.finish(unit(), env),
                 }
+            }
+            Expr::Try(t) if matches!(self.ret_ty, Ty::Result(_, _)) => {
+                // `?` on a Result in a function returning Result (the same error type)
+                let rt = self.ret_ty.clone();
+                self.expr_k(&t.expr, env, None, &|tr, v| {
+                    let (okt, errt) = match &v.ty {
+                        Ty::Result(a, b) => ((**a).clone(), (**b).clone()),
+                        _ => return Err(unsupported(e, &format!("`?` on a value of type {} in a function returning Result", v.ty.show()))),
+                    };
+                    if let Ty::Result(_, fe) = &rt {
+                        join(&errt, fe).map_err(|m| unsupported(e, &format!("`?` with a different error type (From conversions are not translated): {}", m)))?;
+                    }
+                    let x = tr.fresh("q");
+                    let er = tr.fresh("er");
+                    let bad = tr.finish(Val { s: format!("(inr {})", er), ty: rt.clone() }, env)?;
+                    let rest = k(tr, Val { s: x.clone(), ty: okt })?;
+                    Ok(format!("match {} with\n| inl {} =>\n{}\n| inr {} => {}\nend", v.s, x, rest, er, bad))
+                })
             }
             Expr::Try(t) => {
                 let rt = self.ret_ty.clone();
@@ -109,6 +160,113 @@ impl<'a> Tr<'a> {
             Expr::Assign(a) => self.assign_k(&a.left, None, &a.right, env, e, k),
             Expr::Binary(b) if is_compound(&b.op) => self.assign_k(&b.left, Some(&b.op), &b.right, env, e, k),
             Expr::Macro(m) if is_skipped_macro(&m.mac) => k(self, unit()),
+            Expr::Macro(m) if is_panic_macro(&m.mac) => self.panic_finish(e, env),
+            Expr::MethodCall(m) if m.method == "for_each" && m.args.len() == 1 && matches!(&*m.receiver, Expr::MethodCall(r) if r.method == "iter_mut" && r.args.is_empty()) && matches!(&m.args[0], Expr::Closure(c) if c.inputs.len() == 1) => {
+                // `array_place.iter_mut().for_each(|v| body)`: unrolled; in body `*v` is the i-th component of the place
+                let place: &Expr = match &*m.receiver {
+                    Expr::MethodCall(r) => &r.receiver,
+                    _ => unreachable!(),
+                };
+                let cl = match &m.args[0] {
+                    Expr::Closure(c) => c.clone(),
+                    _ => unreachable!(),
+                };
+                let pv = self.pure(place, env, None)?;
+                let n = match &pv.ty {
+                    Ty::Tuple(ts) => ts.len(),
+                    t => return Err(unsupported(e, &format!("`iter_mut().for_each(..)` on a value of type {} (only an array of 2..8 elements)", t.show()))),
+                };
+                let pname = match &cl.inputs[0] {
+                    Pat::Ident(i) if i.by_ref.is_none() && i.subpat.is_none() => i.ident.to_string(),
+                    _ => return Err(unsupported(e, "closure parameter of `for_each`")),
+                };
+                struct Sub {
+                    name: String,
+                    place: Expr,
+                    bad: bool,
+                }
+                impl syn::visit_mut::VisitMut for Sub {
+                    fn visit_expr_mut(&mut self, x: &mut Expr) {
+                        if let Expr::Unary(u) = x {
+                            if matches!(u.op, UnOp::Deref(_)) {
+                                if let Expr::Path(p) = &*u.expr {
+                                    if p.path.is_ident(&self.name) {
+                                        *x = self.place.clone();
+                                        return;
+                                    }
+                                }
+                            }
+                        }
+                        if let Expr::Path(p) = x {
+                            if p.path.is_ident(&self.name) {
+                                self.bad = true; // the reference itself (not `*v`) is used
+                            }
+                        }
+                        syn::visit_mut::visit_expr_mut(self, x);
+                    }
+                }
+                let mut stmts: Vec<Stmt> = vec![];
+                for i in 0..n {
+                    let comp: Expr = Expr::Field(ExprField { attrs: vec![], base: Box::new(place.clone()), dot_token: Default::default(), member: Member::Unnamed(Index { index: i as u32, span: proc_macro2::Span::call_site() }) });
+                    let mut body: Expr = (*cl.body).clone();
+                    let mut sv = Sub { name: pname.clone(), place: comp, bad: false };
+                    syn::visit_mut::VisitMut::visit_expr_mut(&mut sv, &mut body);
+                    if sv.bad {
+                        return Err(unsupported(e, "`for_each` closure that uses its parameter other than as `*v`"));
+                    }
+                    stmts.push(Stmt::Expr(body, Some(Default::default())));
+                }
+                self.stmts_k(&stmts, env, None, k)
+            }
+            Expr::MethodCall(m) if m.method == "zip" && m.args.len() == 1 => {
+                // `a.zip(b)`: the list of pairs (List.combine); an iterator value with a configured `next` is first driven to
+                // the list it yields (fuel)
+                let arg = m.args[0].clone();
+                self.expr_k(&m.receiver, env, None, &|tr, recv| {
+                    let bv = tr.pure(&arg, env, None)?;
+                    let bt = match &bv.ty {
+                        Ty::Slice(t) | Ty::Iter(t) => (**t).clone(),
+                        t => return Err(unsupported(e, &format!("`zip` with a value of type {} (only a list)", t.show()))),
+                    };
+                    match &recv.ty {
+                        Ty::Slice(at) | Ty::Iter(at) => {
+                            let ty = Ty::Slice(Box::new(Ty::Tuple(vec![(**at).clone(), bt])));
+                            k(tr, Val { s: format!("(List.combine {} {})", recv.s, bv.s), ty })
+                        }
+                        Ty::Adt(_) => {
+                            let (ls, lt) = tr.collect_iter(&recv, e)?;
+                            let at = match &lt {
+                                Ty::Slice(t) => (**t).clone(),
+                                _ => unreachable!(),
+                            };
+                            let l = tr.fresh("items");
+                            let ty = Ty::Slice(Box::new(Ty::Tuple(vec![at, bt])));
+                            let rest = k(tr, Val { s: format!("(List.combine {} {})", l, bv.s), ty })?;
+                            Ok(format!("match {} with\n| Some {} =>\n{}\n| None => None\nend", ls, l, rest))
+                        }
+                        t => Err(unsupported(e, &format!("`zip` on a value of type {}", t.show()))),
+                    }
+                })
+            }
+            Expr::MethodCall(m) if m.method == "map" && m.args.len() == 1 && matches!(&m.args[0], Expr::Closure(c) if c.inputs.len() == 1) && matches!(self.pure(&m.receiver, env, None).map(|v| v.ty), Ok(Ty::Slice(_))) => self.list_map_k(m, env, e, k),
+            Expr::Call(c) if Self::from_fn_closure(e).is_some() => {
+                let _ = c;
+                self.generator_k(e, env, k)
+            }
+            Expr::MethodCall(m) if m.method == "flatten" && m.args.is_empty() && Self::from_fn_closure(&m.receiver).is_some() => self.generator_k(e, env, k),
+            Expr::MethodCall(m) if m.method == "unwrap" && m.args.is_empty() && self.fuel && !matches!(&*m.receiver, Expr::MethodCall(r) if r.method == "try_into") => {
+                // in a fuelled function (result in `option`): `opt.unwrap()` on None leaves the function with None
+                // (None = no value: fuel exhausted, or a panic of `unwrap`)
+                self.expr_k(&m.receiver, env, None, &|tr, v| {
+                    let inner = match &v.ty {
+                        Ty::Option(t) => (**t).clone(),
+                        _ => return Err(unsupported(e, &format!("`unwrap()` on a value of type {} (only Option, in a fuelled function)", v.ty.show()))),
+                    };
+                    let x = tr.fresh("u");
+                    let rest = k(tr, Val { s: x.clone(), ty: inner })?;
+                    Ok(format!("match {} with\n| Some {} =>\n{}\n| None => None\nend", v.s, x, rest))
+                })
+            }
             Expr::MethodCall(m) if m.method == "inspect" && m.args.len() == 1 && matches!(&m.args[0], Expr::Closure(c) if c.inputs.len() == 1 && matches!(c.inputs[0], Pat::Wild(_))) => {
                 // `opt.inspect(|_| { statements })`: the statements run when `opt` is Some; the value is `opt`
                 let body: &Expr = match &m.args[0] {
@@ -127,7 +285,7 @@ impl<'a> Tr<'a> {
                 })
             }
             Expr::MethodCall(m) if Self::get_mut_chain(m).is_some() => self.get_mut_chain_k(m, env, e, k),
-            Expr::MethodCall(m) if m.method == "copy_from_slice" && m.args.len() == 1 && matches!(strip_parens(&m.receiver), Expr::Index(_)) => self.array_copy_k(m, env, e, k),
+            Expr::MethodCall(m) if m.method == "copy_from_slice" && m.args.len() == 1 && (matches!(strip_parens(&m.receiver), Expr::Index(_)) || matches!(self.pure(&m.receiver, env, None).map(|v| v.ty), Ok(Ty::Tuple(_)))) => self.array_copy_k(m, env, e, k),
             Expr::MethodCall(m) if Self::view_chain(m).is_some() => self.view_chain_k(m, env, e, k),
             Expr::Loop(l) => {
                 if l.label.is_some() {
@@ -284,6 +442,11 @@ impl<'a> Tr<'a> {
                 env2.push(&n, var(cq.clone(), vty));
                 let r = self.stmts_k(rest, &env2, hint, k)?;
                 Ok(let_in(&cq, true, &v.s, &r))
+            }
+            Stmt::Macro(m) if is_panic_macro(&m.mac) => {
+                // `panic!(..)`: this path has no value in Rust; the function ends here with the current state and a default
+                // result (the translated definitions describe the non-panicking runs only)
+                self.panic_finish(first, env)
             }
             Stmt::Macro(m) => {
                 if is_skipped_macro(&m.mac) {
@@ -483,14 +646,236 @@ impl<'a> Tr<'a> {
         Ok(crate::effects::let_pat(&[tmp, r], &m, &rest))
     }
 
-    /// `arr[a..b].copy_from_slice(&src);` on a local array (N-tuple) with literal bounds and an array `src` of b - a elements
-    fn array_copy_k(&mut self, m: &ExprMethodCall, env: &Env, at: &Expr, k: K) -> R<String> {
-        let ix = match strip_parens(&m.receiver) {
-            Expr::Index(ix) => ix,
+    /// `list.map(|x| body)` on a list of items (a slice iterator, `str::split`, the value of an `impl Iterator` function): a pure
+    /// closure is List.map; a closure that assigns to captured variables (`move |x| { ..; state += ..; .. }`) is a Fixpoint by
+    /// structural recursion on the list whose other parameters are the variables in scope
+    fn list_map_k(&mut self, m: &ExprMethodCall, env: &Env, at: &Expr, k: K) -> R<String> {
+        let cl = match &m.args[0] {
+            Expr::Closure(c) => c.clone(),
             _ => unreachable!(),
         };
-        let (root, path) = self.target_of(&ix.expr)?;
-        let av = self.pure(&ix.expr, env, None)?;
+        let lv = self.pure(&m.receiver, env, None)?;
+        let elem = match &lv.ty {
+            Ty::Slice(t) => (**t).clone(),
+            _ => unreachable!(),
+        };
+        let body_stmts: Vec<Stmt> = match &*cl.body {
+            Expr::Block(b) => b.block.stmts.clone(),
+            other => vec![Stmt::Expr(other.clone(), None)],
+        };
+        let eff = self.effects_stmts(&body_stmts);
+        if eff.ret {
+            return Err(unsupported(at, "`map` closure with `return` / `?` / loops / fuelled calls"));
+        }
+        if eff.assigned.contains("<complex place>") {
+            return Err(unsupported(at, "assignment to something that is not a local variable or a field path of one"));
+        }
+        let mut env2 = env.clone();
+        let pat = self.bind_pat(&cl.inputs[0], &elem, &mut env2)?;
+        let captured_writes = eff.assigned.iter().any(|n| env.get(n).is_some());
+        if !captured_writes {
+            let cell: RefCell<Option<Ty>> = RefCell::new(None);
+            let body = self.stmts_k(&body_stmts, &env2, None, &|_tr, v| {
+                *cell.borrow_mut() = Some(v.ty.clone());
+                Ok(v.s)
+            })?;
+            let bt = cell.into_inner().ok_or_else(|| unsupported(at, "`map` closure without a value"))?;
+            return k(self, Val { s: format!("(List.map (fun x_ : {} => let '{} := x_ in\n{}) {})", self.t.coq_ty(&elem)?, pat, body, lv.s), ty: Ty::Slice(Box::new(bt)) });
+        }
+        if !self.loops.is_empty() || self.gen.is_some() {
+            return Err(unsupported(at, "a stateful `map` inside a loop or a generator"));
+        }
+        let mut all: Vec<(String, String)> = vec![];
+        for (n, v) in env.vars.iter() {
+            if v.alias.is_some() {
+                continue;
+            }
+            let cur = env.get(n).unwrap();
+            if cur.coq != v.coq || cur.alias.is_some() {
+                continue;
+            }
+            if all.iter().any(|(c, _)| *c == v.coq) {
+                continue;
+            }
+            all.push((v.coq.clone(), self.t.coq_ty(&v.ty)?));
+        }
+        self.loop_counter += 1;
+        let id = format!("{}_map{}", self.fn_coq, self.loop_counter);
+        let names: Vec<String> = all.iter().map(|(c, _)| c.clone()).collect();
+        let rec = format!("({} r_{})", id, names.iter().map(|n| format!(" {}", n)).collect::<String>());
+        let cell: RefCell<Option<Ty>> = RefCell::new(None);
+        // the captured variables are owned by the closure (`move`): inside they may be written whatever their declaration says
+        let mut env3 = env2.clone();
+        for n in eff.assigned.iter() {
+            if let Some(v) = env3.get(n).cloned() {
+                let mut v2 = v.clone();
+                v2.mutable = true;
+                env3.push(n, v2);
+            }
+        }
+        let body = self.stmts_k(&body_stmts, &env3, None, &|_tr, v| {
+            *cell.borrow_mut() = Some(v.ty.clone());
+            Ok(format!("({} :: {})", v.s, rec))
+        })?;
+        let bt = cell.into_inner().ok_or_else(|| unsupported(at, "`map` closure without a value"))?;
+        let mut binders = String::new();
+        for (c, t) in all.iter() {
+            binders.push_str(&format!(" ({} : {})", c, t));
+        }
+        self.aux_defs.push(format!(
+            "Fixpoint {id} (l_ : list {a}){binders} {{struct l_}} : list {b} :=\nmatch l_ with\n| [] => []\n| x_ :: r_ =>\nlet '{pat} := x_ in\n{body}\nend.",
+            id = id, a = self.t.coq_ty(&elem)?, binders = binders, b = self.t.coq_ty(&bt)?, pat = pat, body = body
+        ));
+        k(self, Val { s: format!("({} {}{})", id, lv.s, names.iter().map(|n| format!(" {}", n)).collect::<String>()), ty: Ty::Slice(Box::new(bt)) })
+    }
+
+    /// `core::iter::from_fn(move || body)`: the closure
+    pub fn from_fn_closure(e: &Expr) -> Option<&ExprClosure> {
+        if let Expr::Call(c) = strip_parens(e) {
+            if let Expr::Path(p) = &*c.func {
+                let segs: Vec<String> = p.path.segments.iter().map(|s| s.ident.to_string()).collect();
+                let ok = segs.last().map(|s| s == "from_fn").unwrap_or(false) && (segs.len() == 1 || segs[segs.len() - 2] == "iter");
+                if ok && c.args.len() == 1 {
+                    if let Expr::Closure(cl) = &c.args[0] {
+                        if cl.inputs.is_empty() {
+                            return Some(cl);
+                        }
+                    }
+                }
+            }
+        }
+        None
+    }
+
+    /// the value the closure of a generator returns (an Option): Some v = yield v and go on, None = finished
+    pub fn gen_finish(&mut self, v: Val, at: &Expr) -> R<String> {
+        let (cont, flatten, cell) = match &self.gen {
+            Some(g) => (g.0.clone(), g.1, &g.2),
+            None => return Err(unsupported(at, "not inside a generator")),
+        };
+        let inner = match &v.ty {
+            Ty::Option(t) => (**t).clone(),
+            t => return Err(unsupported(at, &format!("a generator closure returning {} (not Option)", t.show()))),
+        };
+        let item = if flatten {
+            match &inner {
+                Ty::RangeIncl(t) if **t == Ty::Int(Some(IntTy::U32)) => (**t).clone(),
+                Ty::Infer => Ty::Infer,
+                t => return Err(unsupported(at, &format!("`.flatten()` over items of type {} (only RangeInclusive<char>)", t.show()))),
+            }
+        } else {
+            inner
+        };
+        {
+            let mut c = cell.borrow_mut();
+            let nt = match &*c {
+                Some(old) => join(old, &item).map_err(|m| unsupported(at, &m))?,
+                None => item,
+            };
+            *c = Some(nt);
+        }
+        if v.s.trim() == "None" {
+            return Ok("Some []".to_string());
+        }
+        let cons = if flatten { "(Casts.char_range (fst x_) (snd x_) ++ l_)" } else { "(x_ :: l_)" };
+        Ok(format!("match {} with\n| Some x_ =>\n  match {} with\n  | Some l_ => Some {}\n  | None => None\n  end\n| None => Some []\nend", v.s, cont, cons))
+    }
+
+    /// `core::iter::from_fn(move || body)[.flatten()]`: the list of the items the generator yields until its first None, a
+    /// Fixpoint over fuel whose parameters are the variables in scope (the captured mutable locals are rebound in the body)
+    fn generator_k(&mut self, e: &Expr, env: &Env, k: K) -> R<String> {
+        let (cl, flatten) = match strip_parens(e) {
+            Expr::MethodCall(m) => (Self::from_fn_closure(&m.receiver).unwrap().clone(), true),
+            other => (Self::from_fn_closure(other).unwrap().clone(), false),
+        };
+        if !self.loops.is_empty() || self.gen.is_some() {
+            return Err(unsupported(e, "a generator inside a loop or another generator"));
+        }
+        if !self.fuel {
+            self.needs_fuel = true;
+            return Err(unsupported(e, "`from_fn` generator (retry with fuel)"));
+        }
+        let body_stmts: Vec<Stmt> = match &*cl.body {
+            Expr::Block(b) => b.block.stmts.clone(),
+            other => vec![Stmt::Expr(other.clone(), None)],
+        };
+        if self.effects_stmts(&body_stmts).assigned.contains("<complex place>") {
+            return Err(unsupported(e, "assignment to something that is not a local variable or a field path of one"));
+        }
+        let mut all: Vec<(String, String)> = vec![];
+        for (n, v) in env.vars.iter() {
+            if v.alias.is_some() {
+                continue;
+            }
+            let cur = env.get(n).unwrap();
+            if cur.coq != v.coq || cur.alias.is_some() {
+                continue;
+            }
+            if all.iter().any(|(c, _)| *c == v.coq) {
+                continue;
+            }
+            all.push((v.coq.clone(), self.t.coq_ty(&v.ty)?));
+        }
+        self.loop_counter += 1;
+        let id = format!("{}_gen{}", self.fn_coq, self.loop_counter);
+        let f_outer = self.fuel_var.clone();
+        let f_in = self.fresh("fuel");
+        let names: Vec<String> = all.iter().map(|(c, _)| c.clone()).collect();
+        let cont = if names.is_empty() { format!("({} {})", id, f_in) } else { format!("({} {} {})", id, f_in, names.join(" ")) };
+        self.fuel_var = f_in.clone();
+        self.gen = Some((cont, flatten, RefCell::new(None)));
+        // the captured variables are written by the closure: they are mutable inside it whatever their declaration says
+        let res = self.stmts_k(&body_stmts, env, None, &|tr, v| tr.gen_finish(v, e));
+        let frame = self.gen.take();
+        self.fuel_var = f_outer.clone();
+        let inner = res?;
+        let item = frame.and_then(|g| g.2.into_inner()).ok_or_else(|| unsupported(e, "a generator that never yields"))?;
+        let it = self.t.coq_ty(&item)?;
+        let mut binders = String::new();
+        for (c, t) in all.iter() {
+            binders.push_str(&format!(" ({} : {})", c, t));
+        }
+        let f0 = format!("{}_", f_in);
+        self.aux_defs.push(format!(
+            "Fixpoint {id} ({f0} : nat){binders} {{struct {f0}}} : option (list {it}) :=\nmatch {f0} with\n| O => None\n| Datatypes.S {f_in} =>\n{inner}\nend.",
+            id = id, f0 = f0, binders = binders, it = it, f_in = f_in, inner = inner
+        ));
+        let g = self.fresh("gen");
+        let rest = k(self, Val { s: g.clone(), ty: Ty::Slice(Box::new(item)) })?;
+        Ok(format!("match ({} {}{}) with\n| Some {} =>\n{}\n| None => None\nend", id, f_outer, names.iter().map(|n| format!(" {}", n)).collect::<String>(), g, rest))
+    }
+
+    /// `arr[a..b].copy_from_slice(&src);` on a local array (N-tuple) with literal bounds and an array `src` of b - a elements
+    fn array_copy_k(&mut self, m: &ExprMethodCall, env: &Env, at: &Expr, k: K) -> R<String> {
+        let (dest, range): (&Expr, Option<&Expr>) = match strip_parens(&m.receiver) {
+            Expr::Index(ix) => (&ix.expr, Some(&ix.index)),
+            other => (other, None),
+        };
+        let (root, path) = self.target_of(dest)?;
+        let av = self.pure(dest, env, None)?;
+        if let (Ty::Slice(elem), Some(rg)) = (&av.ty, range) {
+            // `list[a..b].copy_from_slice(&src)` with computed bounds: Casts.slice_copy (Rust panics when the range is
+            // outside the list or its length differs from the source's; the list is unchanged here)
+            let r = match strip_parens(rg) {
+                Expr::Range(r) if matches!(r.limits, RangeLimits::HalfOpen(_)) => r,
+                _ => return Err(unsupported(at, "`x[i].copy_from_slice(..)` whose index is not a half-open range")),
+            };
+            let us = Ty::int(IntTy::Usize);
+            let a = match &r.start {
+                Some(x) => self.pure(x, env, Some(&us))?.s,
+                None => "0".to_string(),
+            };
+            let b = match &r.end {
+                Some(x) => self.pure(x, env, Some(&us))?.s,
+                None => format!("(Z.of_nat (length {}))", av.s),
+            };
+            let sv = self.pure(&m.args[0], env, None)?;
+            let sv = crate::calls::coerce_array_to_slice(sv, &Ty::Slice(elem.clone()));
+            join(&sv.ty, &av.ty).map_err(|mm| unsupported(at, &mm))?;
+            let newv = format!("(Casts.slice_copy {} {} {} {})", av.s, a, b, sv.s);
+            let rest = k(self, unit())?;
+            return self.write_place(&root, &path, env, &newv, &rest, at);
+        }
         let n = match &av.ty {
             Ty::Tuple(ts) => ts.len(),
             t => return Err(unsupported(at, &format!("`x[a..b].copy_from_slice(..)` on a value of type {} (only a local array)", t.show()))),
@@ -502,8 +887,9 @@ impl<'a> Tr<'a> {
                 Some(_) => Err(unsupported(at, "`x[a..b].copy_from_slice(..)` whose bounds are not literals")),
             }
         };
-        let (a, b) = match strip_parens(&ix.index) {
-            Expr::Range(r) if matches!(r.limits, RangeLimits::HalfOpen(_)) => (lit_of(&r.start, 0)?, lit_of(&r.end, n)?),
+        let (a, b) = match range.map(strip_parens) {
+            None => (0, n),
+            Some(Expr::Range(r)) if matches!(r.limits, RangeLimits::HalfOpen(_)) => (lit_of(&r.start, 0)?, lit_of(&r.end, n)?),
             _ => return Err(unsupported(at, "`x[i].copy_from_slice(..)` whose index is not a half-open range")),
         };
         let sv = self.pure(&m.args[0], env, None)?;
@@ -965,6 +1351,18 @@ impl<'a> Tr<'a> {
                     Ok(format!("({}, {})", a.s, self.update(&b, &path[1..], new, at)?))
                 }
             }
+            Ty::Tuple(ts) if ts.len() > 2 => {
+                // an n-tuple (array): rebuild it with component k updated
+                let kk: usize = fname.parse().map_err(|_| unsupported(at, "tuple field"))?;
+                if kk >= ts.len() {
+                    return Err(unsupported(at, "tuple index out of range"));
+                }
+                let names: Vec<String> = (0..ts.len()).map(|j| format!("u{}_", j)).collect();
+                let cur = Val { s: names[kk].clone(), ty: ts[kk].clone() };
+                let upd = self.update(&cur, &path[1..], new, at)?;
+                let out: Vec<String> = (0..ts.len()).map(|j| if j == kk { upd.clone() } else { names[j].clone() }).collect();
+                Ok(format!("(let '({}) := {} in ({}))", names.join(", "), base.s, out.join(", ")))
+            }
             Ty::Range(t) | Ty::RangeIncl(t) if fname == "start" || fname == "end" => {
                 let a = Val { s: format!("(fst {})", base.s), ty: (**t).clone() };
                 let b = Val { s: format!("(snd {})", base.s), ty: (**t).clone() };
@@ -1002,6 +1400,18 @@ impl<'a> Tr<'a> {
         let (root, path) = self.place(left)?;
         let var = env.get(&root).cloned().ok_or_else(|| unsupported(at, &format!("assignment to `{}` which is not a local variable", root)))?;
         let cur = self.pure(left, env, None)?;
+        if op.is_none() {
+            // `place = <call with effects / fuel>`: the value first, then the write
+            let eff = self.effects_expr(right);
+            if eff.ret || !eff.assigned.is_empty() {
+                let cty = cur.ty.clone();
+                return self.expr_k(right, env, Some(&cty), &|tr, v| {
+                    join(&v.ty, &cty).map_err(|m| unsupported(at, &m))?;
+                    let r = k(tr, unit())?;
+                    tr.write_place(&root, &path, env, &v.s, &r, at)
+                });
+            }
+        }
         let newv: String = match op {
             None => {
                 let r = self.pure(right, env, Some(&cur.ty))?;
